@@ -112,7 +112,9 @@ var universe = func() []baseURL {
 	// plain join would take outside the sandbox
 	add("traversal", "trav", "../../x", "../x", "../../../x", "..", ".", "/", "../sentinel.txt", "../../sentinel.txt", "../../../sentinel.txt",
 		"../sentinel-dir", "/etc/passwd", "..\\..\\x", "a/../../b", "cache/../../x", "./../x", "%2e%2e/%2e%2e/x", "..%2F..%2Fx", "..%2fx",
-		"file:///etc/passwd", "http://example.com/../../../../x", "sub/dir/file", "sub", "notation-1234567890", "x", "../cache/x", "../../r2/cache/x")
+		"file:///etc/passwd", "http://example.com/../../../../x",
+		// URLs whose HOST (or user / port part) is a dot name: net/url parses them happily
+		"http://../ca.crl", "http://..:80/x", "http://../../x", "http://./ca.crl", "http://../sentinel.txt", "http://user@../x", "//../x", "http://..%2f..%2fx/ca.crl", "sub/dir/file", "sub", "notation-1234567890", "x", "../cache/x", "../../r2/cache/x")
 	u = append(u,
 		baseURL{kind: "abs-path", fam: "trav", dyn: func(e env) string { return filepath.Join(e.sandbox, "sentinel.txt") }},
 		baseURL{kind: "abs-path", fam: "trav", dyn: func(e env) string { return filepath.Join(e.sandbox, "r1", "x") }},
@@ -263,7 +265,7 @@ func (b bundleSpec) String() string {
 
 func drawCRLSpec(rt *rapid.T, label string, number int64) crlSpec {
 	return crlSpec{
-		NU:      rp.Pick(rt, label+"NU", "-1y", "-1h", "+1h", "+1h", "+1y", "+1y"),
+		NU:      rp.Pick(rt, label+"NU", "-1y", "-1h", "+1h", "+1h", "+1y", "+1y", "-300y", "+300y"),
 		Entries: rp.Pick(rt, label+"Entries", 0, 0, 0, 1, 1, 1, 3, 3, 50, 50, 50, 400),
 		Number:  number,
 		TU:      rp.Pick(rt, label+"TU", 0, 0, 0, 10, 45, 400),
@@ -285,7 +287,15 @@ func drawBundle(rt *rapid.T, counter *int64) bundleSpec {
 var oidDeltaCRLIndicator = asn1.ObjectIdentifier{2, 5, 29, 27}
 
 func mintCRL(now time.Time, s crlSpec, deltaOf int64) *x509.RevocationList {
-	nu := now.Add(nuOffset(s.NU))
+	var nu time.Time
+	switch s.NU {
+	case "-300y": // further from now than a time.Duration can express (about 292 years)
+		nu = now.AddDate(-300, 0, 0)
+	case "+300y":
+		nu = now.AddDate(300, 0, 0)
+	default:
+		nu = now.Add(nuOffset(s.NU))
+	}
 	var extra []pkix.Extension
 	if deltaOf > 0 {
 		v, err := asn1.Marshal(big.NewInt(deltaOf))
